@@ -20,7 +20,8 @@ RULE = ("Hypothesis builds series of 5..80 samples (eight spacing kinds incl. in
         "smoothing condition s = 0 (int or float), s log-uniform in [1e-4, 1e2], or s omitted (process level). "
         "Weaver.smooth(s), process.spline_smooth(x, y, s) and Weaver.to_function() (optionally after a shift/scale "
         "so that the working series differs from the original) are run on them; the history sub-check applies 3..8 "
-        "steps (shift_y, scale_y, smooth, trend, seeded noise, shift_x, scale_x) to ONE Weaver and takes "
+        "steps (shift_y, scale_y with |c| > 1 / < 1 / negative, smooth, trend, seeded noise, shift_x, scale_x, "
+        "restore_original) to ONE Weaver, judges every smooth(s) step against the series just before it, and takes "
         "to_function() (default s / explicit 0) before and after several of them. Non-trivial: for the smoothing "
         "condition 0 < s < residual of the least-squares cubic polynomial (the constraint is active); for "
         "to_function / s = 0 a non-affine series; for affine data a non-zero slope and s != 0; for the default s a "
